@@ -123,6 +123,39 @@ func (m *ModuleAuthJWT) getToken(req *bfe_basic.Request) (string, error) {
 	return authValue[1], nil
 }
 
+// checkTimeClaims checks time based claims "exp, nbf, iat" of token.
+//
+// The claims must be NumericDate (RFC 7519 Section 4.1) if present, while
+// jwt-go skips verification of claim which is not a number or is zero.
+func checkTimeClaims(claims jwt.Claims) error {
+	mapClaims, ok := claims.(jwt.MapClaims)
+	if !ok {
+		return nil
+	}
+
+	now := float64(jwt.TimeFunc().Unix())
+	for _, name := range []string{"exp", "nbf", "iat"} {
+		value, ok := mapClaims[name]
+		if !ok {
+			continue
+		}
+
+		date, ok := value.(float64)
+		if !ok {
+			return fmt.Errorf("claim[%s] is not a number", name)
+		}
+
+		if name == "exp" && now > date {
+			return fmt.Errorf("token is expired")
+		}
+		if name == "nbf" && now < date {
+			return fmt.Errorf("token is not valid yet")
+		}
+	}
+
+	return nil
+}
+
 func (m *ModuleAuthJWT) validateToken(token string, rule *AuthJWTRule) error {
 	for _, key := range rule.Keys {
 		parsedToken, err := jwt.Parse(token, key.provideKey)
@@ -134,7 +167,8 @@ func (m *ModuleAuthJWT) validateToken(token string, rule *AuthJWTRule) error {
 		}
 
 		// Both signature and time based claims "exp, iat, nbf" are valid.
-		if parsedToken.Valid && parsedToken.Claims.Valid() == nil {
+		if parsedToken.Valid && parsedToken.Claims.Valid() == nil &&
+			checkTimeClaims(parsedToken.Claims) == nil {
 			return nil
 		}
 	}
